@@ -4,7 +4,7 @@
    with arbitrary sizes, timer, hand-off to the bridge, responses dropping partitions); events that are not enabled in
    the current state cannot happen and are skipped.  [Sent set] is a buffer handed to the bridge (= one produce request). *)
 From Coq Require Import List ZArith.
-From SV Require Import Gen.GoInt Gen.DecTypes Gen.DecC16 C16.Model C16.Proofs C16.ProofsTie.
+From SV Require Import Gen.GoInt Gen.DecTypes Gen.DecTypes2 Gen.DecC16 Gen.DecC01 C16.Model C16.Proofs C16.ProofsTie.
 Import ListNotations.
 Open Scope Z_scope.
 
@@ -113,3 +113,46 @@ Theorem c16_tie_dispatcher_check : forall c m,
                  (m_headers m) (m_key m) (m_val m)).
 Proof. exact tie_dispatcher_check. Qed.
 Print Assumptions c16_tie_dispatcher_check.
+
+(* ---- the lines of the worker's loop itself (decgen goldens DecC16: arm_flush_timer, enable_output, roll_over;
+   DecC01: needs_retry, wait_for_space_recheck, bp_input_class) ---- *)
+Theorem c16_tie_arm_timer : forall f armed,
+  (armed || (f >? 0))%bool =
+  (armed || match fst (DecC16.arm_flush_timer f armed) with [] => false | _ => true end)%bool.
+Proof. exact tie_arm_timer. Qed.
+Print Assumptions c16_tie_arm_timer.
+
+Theorem c16_tie_enable_output : forall c s o,
+  b_out (recompute c s) =
+  is_some (fst (DecC16.enable_output o (b_fired s) (s_bytes (b_buf s)) (s_count (b_buf s))
+                  (c_flush_frequency c) (c_flush_bytes c) (c_flush_messages c))).
+Proof. exact tie_enable_output. Qed.
+Print Assumptions c16_tie_enable_output.
+
+Theorem c16_tie_roll_over : forall s t f,
+  let '(t', f', acts) := DecC16.roll_over t f in
+  b_armed (Model.roll_over s) = is_some t' /\ b_fired (Model.roll_over s) = f' /\
+  b_buf (Model.roll_over s) = empty_set /\ acts = [BP_new_buffer] /\
+  b_out (Model.roll_over s) = b_out s /\ b_pending (Model.roll_over s) = b_pending s.
+Proof. exact tie_roll_over. Qed.
+Print Assumptions c16_tie_roll_over.
+
+Theorem c16_tie_wait_recheck : forall c s m drops closing cur, b_pending s = Some m ->
+  let s' := handle_response s drops in
+  step c s (EvResponse drops (retry_flag closing cur)) =
+  match DecC01.wait_for_space_recheck false closing cur (would_overflow c (b_buf s') m) with
+  | ExReturn ENil => do_add c s' m
+  | ExReturn _ => (set_pending s' None, [Retried m])
+  | _ => (s', [])
+  end.
+Proof. exact tie_wait_recheck. Qed.
+Print Assumptions c16_tie_wait_recheck.
+
+Theorem c16_tie_input_class : forall flags closing cur nilmap, Z.land flags 1 =? 1 = false ->
+  (input_retry_flag flags closing cur = false <->
+   snd (DecC01.bp_input_class flags closing cur nilmap) = ExFall) /\
+  (input_retry_flag flags closing cur = true ->
+   snd (DecC01.bp_input_class flags closing cur nilmap) = ExContinue /\
+   exists e rest, fst (DecC01.bp_input_class flags closing cur nilmap) = BP_retry e :: rest).
+Proof. exact tie_input_class. Qed.
+Print Assumptions c16_tie_input_class.
